@@ -296,6 +296,10 @@ def insert(field, out, intensity=False, weight=1):
             field_cmax -= out_cmax - out_shape[1]
             out_cmax = out_shape[1]
 
+        # nothing to do if the field lies wholly outside of out
+        if out_rmax <= out_rmin or out_cmax <= out_cmin:
+            return out
+
         out_slice = slice(out_rmin, out_rmax), slice(out_cmin, out_cmax)
         field_slice = slice(field_rmin, field_rmax), slice(field_cmin, field_cmax)
 
